@@ -486,6 +486,25 @@ def run_val(t, v):
     if not isinstance(t, str):
         put('p.eqfresh', E(lambda: fresh_class_agreement(t, x)))
 
+    def partial_ctor():
+        # partial construction: the given fields are what was given, every omitted field is its type's default
+        if kind(t) != 'cont':
+            return '1'
+        n = len(t) - 1
+        flags = []
+        for pattern in (lambda i: i % 2 == 0, lambda i: i % 2 == 1, lambda i: i == 0, lambda i: i == n - 1):
+            kw = {'f%d' % i: getattr(x, 'f%d' % i) for i in range(n) if pattern(i)}
+            y = T(**kw)
+            ok = True
+            for i in range(n):
+                got = getattr(y, 'f%d' % i)
+                want = getattr(x, 'f%d' % i) if pattern(i) else mk_type(t[1 + i]).default(None)
+                ok = ok and got.hash_tree_root() == want.hash_tree_root() and to_val(t[1 + i], got) == to_val(t[1 + i], want)
+            flags.append('1' if ok else '0')
+        return ''.join(flags)
+    if not isinstance(t, str) and kind(t) == 'cont':
+        put('p.partialctor', E(partial_ctor))
+
     def roiter2():
         if kind(t) not in ('vec', 'list') or not hasattr(x, 'readonly_iter'):
             return '1'
